@@ -648,7 +648,6 @@ class C06j(Obligation):
     )
     findings = {
         'C06-inline-semicolon': 'the definition shares its line with other statements (a = 1; b = a)',
-        'C06-inline-global-declared': 'the name also occurs in a global/nonlocal declaration',
         'C06-inline-class-attribute': 'the definition is a class attribute (references through the class are replaced by the bare expression)',
     }
 
@@ -677,7 +676,7 @@ class C06j(Obligation):
         leaf = ctx.run(script._module_node.get_name_of_position, (line, column))
         semicolon, declared, class_attribute = inline_regions(script._module_node, leaf)
         ctx.check(verdict[0] != 'does-not-compile', 'the refactored program compiles',
-                  known={'C06-inline-semicolon': semicolon, 'C06-inline-global-declared': declared})
+                  known={'C06-inline-semicolon': semicolon})
         ctx.check(verdict[0] in ('ok', 'does-not-compile'), 'and computes the same result',
                   known={'C06-inline-class-attribute': class_attribute})
 
